@@ -332,6 +332,64 @@ def main():
                 fail("later_definition_with_its_own_decorator_joins_the_method", body=label, got=repr(got)[:160])
         except BaseException as e:
             fail("later_definition_with_its_own_decorator_joins_the_method", body=label, error=f"{type(e).__name__}: {str(e)[:60]}")
+    # overloads of several bases are merged for EVERY method name - special methods included (__eq__, __init__ are in dir(object))
+    def merged(kind):
+        class Q(OvldBase):
+            def __init__(self, value: int):
+                self.value, self.how = value, "int"
+
+            def __init__(self, value: str):
+                self.value, self.how = int(value), "str"
+
+            def __eq__(self, other: int):
+                return ("eq.int", self.value == other)
+
+            def __eq__(self, other: str):
+                return ("eq.str", self.value == int(other))
+
+            __hash__ = None
+
+            def scale(self, k: int):
+                return ("scale.int", self.value * k)
+
+            def scale(self, k: str):
+                return ("scale.str", self.value * int(k))
+
+        class FloatSupport:  # a mixin class without the metaclass
+            @extend_super
+            def __init__(self, value: float):
+                self.value, self.how = round(value), "float"
+
+            @extend_super
+            def __eq__(self, other: float):
+                return ("eq.float", self.value == round(other))
+
+            @extend_super
+            def scale(self, k: float):
+                return ("scale.float", self.value * k)
+
+        if kind == "class_statement":
+
+            class Full(Q, FloatSupport):
+                pass
+
+            return Q, Full
+        return Q, Q.create_subclass(FloatSupport, name="Made")
+
+    for kind in ("class_statement", "create_subclass"):
+        n += 1
+        try:
+            Q, Full = merged(kind)
+            f = Full(2.6)
+            got = [f.how, out(lambda: f == 3.2), out(lambda: f == 3), out(lambda: f.scale(0.5)), out(lambda: f.scale(2)), Full("4").how]
+            want = ["float", ("eq.float", True), ("eq.int", True), ("scale.float", 1.5), ("scale.int", 6), "str"]
+            base = [out(lambda: Q(2.5))[:8], out(lambda: Q(1) == 1.0)[:8] if isinstance(out(lambda: Q(1) == 1.0), str) else out(lambda: Q(1) == 1.0)]
+            if got != want:
+                fail("bases_merge_overloaded_special_methods_like_ordinary_ones", kind=kind, got=repr(got)[:200], want=repr(want)[:200])
+            if not str(base[0]).startswith("NOMETHOD"):
+                fail("base_class_keeps_its_behaviour_after_the_merge", kind=kind, got=repr(base)[:120])
+        except BaseException as e:
+            fail("bases_merge_overloaded_special_methods_like_ordinary_ones", kind=kind, error=f"{type(e).__name__}: {str(e)[:80]}")
     # value-dependent overloads of a METHOD that all decline: the fall-through to the less specific overload passes self
     from ovld.dependent import Dependent, EndsWith, StartsWith
 
